@@ -95,7 +95,7 @@ FAMILIES = {
              'non-trivial: a dispatch is rejected'),
     'C15': dict(
         gens=[('core', dict(p_waitidle=0.35, tasklen=(2, 8), ntasks=(1, 3)), 0.35), ('core', dict(p_waitidle=0.3, p_timeout=0.4), 0.15),
-              ('chain', dict(p_timeout=0.3), 0.15), ('idle', dict(), 0.25), ('backlog', dict(p_waitidle=1.0), 0.1)],
+              ('chain', dict(p_timeout=0.3), 0.15), ('idle', dict(), 0.2), ('backlog', dict(p_waitidle=1.0), 0.1), ('parraise', dict(idle=True), 0.05)],
         facets=['idle', 'unfinished', 'queue', 'rest', 'history', 'results', 'activation', 'harness', 'other', 'runloop', 'recursion', 'timeout'],
         rule='wait_until_idle racing external and nested dispatches at offsets around the 0.1 s poll, after errors, timeouts, rejections, evictions; '
              'non-trivial: a wait_until_idle call overlaps at least one activation'),
